@@ -39,14 +39,19 @@ def place_chops(rng, case, mode):
             pattern[r] = "none"
             continue
         if r == special and mode == "conflict" and len({m[0] for m in members}) >= 2:
-            ms = rng.sample(members, 2) if len(members) >= 2 else members
-            if ms[0][0] == ms[1][0]:
-                ms = ms[:1]
+            # 2-4 chopped blocks of the family, one of them demanding another count (so e.g. a chopped block can
+            # sit between two chopped neighbours that agree with each other but not with it)
+            byblock = {}
+            for b, a in members:
+                byblock.setdefault(b, (b, a))
+            cand = list(byblock.values())
+            ms = rng.sample(cand, min(len(cand), rng.choice([2, 2, 3, 3, 4])))
             n1 = rng.randint(1, 12)
             n2 = n1 + rng.choice([1, 1, 2, 5, -1]) if n1 > 1 else n1 + 1
-            for (b, a), n in zip(ms, (n1, n2)):
-                case["blocks"][b]["chops"].append([a, {"count": n}])
-            pattern[r] = "conflict" if len(ms) == 2 else "one"
+            odd = rng.randrange(len(ms))
+            for i, (b, a) in enumerate(ms):
+                case["blocks"][b]["chops"].append([a, {"count": n2 if i == odd else n1}])
+            pattern[r] = "conflict" if len(ms) >= 2 else "one"
             continue
         u = rng.random()
         if u < 0.55 or len(members) == 1:
